@@ -24,6 +24,12 @@
    Exit = the task's wait() returns, Direct = Engine.restart() with the real hook files) comparing after every step: restart
    code, Engine.run() calls, tasks submitted, Engine.restarts, resubmissionAttempts(), engine alive, engine exit reason, hook calls.
 
+Component flavours and the finish() interleaving (parts 1-3): configurations may be MIGRATABLE (isMigratable: finish() leaves the
+   engine un-shut-down) and, when flagged `finish`, the action Finish(shutdown|failed) is explored between a task exit and the
+   handling of its POSTMORTEM notification (phase "cancelled"): the handler must neither restart the component nor change its
+   state (FinalIsFrozen: no run(), no launch, same state after finish()).  With C12_FINISH_IN_HOOK=1 finish() also arrives WHILE
+   the restart hook runs (answers finishPossible / finishNotRequired; the hook file calls back into the harness).
+
 Keys: the three named deviations of the spec have their own keys (DEV_KEY, genuine defects of /repo, see
 out/proposed_fixes/C12_*); every other mismatch is keyed by entry point, engine kind and class of the step.
 """
@@ -43,23 +49,28 @@ REASONS = ["Success", "KnownIssue", "SystemIssue", "SubmissionFailed", "UnknownI
 ANSWERS = ["possible", "notRequired", "notPossible", "failed", "hookNotAvailable", "conditionsNotMet", "true", "false",
            "junkStr", "junkInt", "none", "raises", "raisesIOError", "importError", "importIOError", "importRaises",
            "noRestartFn"]
-ACTIONS = ("Exit", "PostMortem", "Direct", "LateRestart")
+ACTIONS = ("Exit", "PostMortem", "Direct", "LateRestart", "Finish")
 DEVIATIONS = ("capBypass", "repeatingIgnoresMaxRestarts", "repeatingIgnoresRestartOn")
 DEV_KEY = {
     "capBypass": "resub-cap:SubmissionFailed-listed-in-restartHookOn",
     "repeatingIgnoresMaxRestarts": "repeating:maxRestarts-0-not-honoured",
     "repeatingIgnoresRestartOn": "repeating:restarted-for-reason-not-in-restartHookOn",
+    "finishedMigratableRestarted": "finish-during-restart-hook:migratable-component-restarted",
 }
 DEV_INVARIANT = {"capBypass": "ResubBounded", "repeatingIgnoresMaxRestarts": "BudgetRespected",
                  "repeatingIgnoresRestartOn": "OnlyRestartable"}
 INIT = ("running", "none", 0, 0, "none")
+# Switch (as G01_CLOBBER in g01.py): also explore finish() arriving WHILE the restart hook runs.  The code as built restarts a
+# MIGRATABLE component in that case (genuine defect, out/proposed_fixes/C12_finish_during_restart_hook_*): off until it is
+# repaired or listed in known_findings.json (key DEV_KEY["finishedMigratableRestarted"]); C12_FINISH_IN_HOOK=1 switches it on.
+FINISH_IN_HOOK = os.environ.get("C12_FINISH_IN_HOOK", "0") == "1"
 
 
 # ---------------------------------------------------------------------------------------------------------------------
 # configurations
 def mk(kind="normal", backend="local", maxR=UNSET, hook=("unset", True), restartOn=("ResourceExhausted",), shutdownOn=(),
-       stable=True, entry="controller", answers="full"):
-    return {"answers": answers, "kind": kind, "backend": backend, "maxR": maxR, "hookFile": hook[0], "onDisk": hook[1],
+       stable=True, entry="controller", answers="full", migratable=False, finish=False):
+    return {"answers": answers, "migratable": migratable, "finish": finish, "kind": kind, "backend": backend, "maxR": maxR, "hookFile": hook[0], "onDisk": hook[1],
             "restartOn": sorted(restartOn), "shutdownOn": sorted(shutdownOn), "stable": stable, "entry": entry}
 
 
@@ -88,6 +99,13 @@ def config_family(tier):
                for b in ("local", "sim")]
         cs += [mk(restartOn=("ResourceExhausted",), shutdownOn=("KnownIssue", "ResourceExhausted"), stable=st)
                for st in (True, False)]
+        # finish() between the exit and its post-mortem handling; migratable components (finish() leaves the engine alone)
+        cs += [mk(hook=HOOKS[0], restartOn=HOOKED, answers="core", migratable=mg, finish=True) for mg in (False, True)]
+        cs += [mk(maxR=1, hook=HOOKS[1], restartOn=("SubmissionFailed", "ResourceExhausted"), migratable=True, finish=True),
+               mk(hook=HOOKS[1], restartOn=("KnownIssue",), shutdownOn=("KnownIssue",), stable=False, migratable=True, finish=True),
+               mk(backend="sim", restartOn=("ResourceExhausted",), migratable=True, finish=True),
+               mk(kind="repeating", migratable=True, finish=True),
+               mk(hook=HOOKS[3], restartOn=HOOKED, answers="core", migratable=True)]
         # repeating engines
         cs += [mk(kind="repeating", maxR=m, restartOn=s, stable=st) for m in MAXR
                for s in [("ResourceExhausted",), (), ("KnownIssue",)] for st in (True, False)]
@@ -109,6 +127,12 @@ def config_family(tier):
         cs += [mk(restartOn=s, shutdownOn=sh, stable=st) for s in [("ResourceExhausted",), ("KnownIssue", "Success")]
                for sh in [("KnownIssue",), ("KnownIssue", "ResourceExhausted", "SubmissionFailed"), ("Success",)]
                for st in (True, False)]
+        cs += [mk(backend=b, maxR=m, hook=h, restartOn=s, stable=st, migratable=mg, finish=True)
+               for b in ("local", "sim") for m in (UNSET, 1, -1) for h in (HOOKS[0], HOOKS[1], HOOKS[3])
+               for s in (HOOKED, ("SubmissionFailed", "ResourceExhausted", "Success")) for st in (True, False) for mg in (False, True)]
+        cs += [mk(kind="repeating", maxR=m, stable=st, migratable=mg, finish=True) for m in (UNSET, 0) for st in (True, False)
+               for mg in (False, True)]
+        cs += [mk(maxR=m, hook=h, restartOn=HOOKED, migratable=True) for m in MAXR for h in HOOKS]
         cs += [mk(kind="repeating", maxR=m, restartOn=s, stable=st, entry=e) for m in MAXR
                for s in [("ResourceExhausted",), (), ("KnownIssue",), tuple(LISTABLE)] for st in (True, False)
                for e in ("controller", "engine")]
@@ -133,10 +157,10 @@ def tla_str_set(xs):
 
 def tla_config(c):
     return ('[id |-> %d, kind |-> "%s", backend |-> "%s", maxR |-> %d, hookFile |-> "%s", onDisk |-> %s, restartOn |-> %s, '
-            'shutdownOn |-> %s, stable |-> %s, entry |-> "%s", answers |-> "%s"]' % (
+            'shutdownOn |-> %s, stable |-> %s, entry |-> "%s", answers |-> "%s", migratable |-> %s, finish |-> %s]' % (
                 c["id"], c["kind"], c["backend"], c["maxR"], c["hookFile"], "TRUE" if c["onDisk"] else "FALSE",
                 tla_str_set(c["restartOn"]), tla_str_set(c["shutdownOn"]), "TRUE" if c["stable"] else "FALSE", c["entry"],
-                c.get("answers", "full")))
+                c.get("answers", "full"), tla_bool(c.get("migratable", False)), tla_bool(c.get("finish", False))))
 
 
 def write_mc_module(name, configs, extends="Restart", extra=""):
@@ -170,8 +194,8 @@ ACTION_PROPS = ["StartsOnlyWhenAllowed", "RefusalFinalises", "FinalIsFrozen", "R
 
 
 def design_cfg(name, devs, max_runs, view, window=False):
-    body = "CONSTANTS\n  Configs <- MCConfigs\n  MaxRuns = %d\n  MaxCount = %d\n  Deviations <- %s\n  Emit = FALSE\n  Window = %s\n" % (
-        max_runs, max_runs, devs, "TRUE" if window else "FALSE")
+    body = "CONSTANTS\n  Configs <- MCConfigs\n  MaxRuns = %d\n  MaxCount = %d\n  Deviations <- %s\n  Emit = FALSE\n  Window = %s\n  FinishInHook = %s\n" % (
+        max_runs, max_runs, devs, "TRUE" if window else "FALSE", tla_bool(FINISH_IN_HOOK and not window))
     body += "SPECIFICATION Spec\nCONSTRAINT Bounded\n"
     if view:
         body += "VIEW DesignView\n"
@@ -193,6 +217,7 @@ def tlc_design(chk, tier, configs):
     chk.add_tlc(r)
     # the predicates over the last event, on the full state (no VIEW), for a slice of the family
     small = [c for i, c in enumerate(configs) if i % (6 if tier == "quick" else 40) == 0]
+    small += [c for c in configs if c["finish"] and c not in small][:2]          # the Finish interleaving must be in the slice
     mod_s = "Restart_mcs_%s" % tier
     write_mc_module(mod_s, small)
     r = run_tlc(mod_s, design_cfg("Restart_designfull_%s" % tier, "MCNoDeviation", 8, False), coverage=True, timeout=800)
@@ -228,8 +253,8 @@ def tlc_edges(chk, tier, configs):
     mod = "Restart_mc_%s" % tier
     # restarts <= 5 (beyond the default budget 3), the resubmission counter is bounded by the policy itself, runs never binds
     body = ("CONSTANTS\n  Configs <- MCConfigs\n  MaxRuns = 40\n  MaxCount = %d\n  Deviations <- MCNoDeviation\n  Emit = TRUE\n"
-            "  Window = FALSE\nSPECIFICATION Spec\nCONSTRAINT Bounded\nVIEW EdgeView\nACTION_CONSTRAINT EmitEdge\n"
-            "CHECK_DEADLOCK FALSE\n" % (4 if tier == "quick" else 5))
+            "  Window = FALSE\n  FinishInHook = %s\nSPECIFICATION Spec\nCONSTRAINT Bounded\nVIEW EdgeView\nACTION_CONSTRAINT EmitEdge\n"
+            "CHECK_DEADLOCK FALSE\n" % (4 if tier == "quick" else 5, tla_bool(FINISH_IN_HOOK)))
     r = run_tlc(mod, write_cfg("Restart_edges_%s" % tier, body), workers=1, timeout=1500)
     if not r["ok"]:
         raise MachineryError("edge emission failed:\n%s" % r["out"][-2000:])
@@ -251,6 +276,8 @@ def step_class(cfg, e):
         return pre + ":exit-bookkeeping"
     if ev["act"] == "LateRestart":
         return pre + ":restart-after-final-state"
+    if ev["act"] == "Finish" or e["pre"]["phase"] == "cancelled":
+        return pre + ":finish-between-exit-and-post-mortem" + (":migratable" if cfg.get("migratable") else "")
     if ev["reason"] == "SubmissionFailed":
         return pre + ":resubmission"
     if ev["answer"] != "na" or ev["hook"]:
@@ -288,7 +315,8 @@ def compare(cfg, e, obs, runs_before):
     want("resubmissionAttempts()", post["resub"], obs["resub"])
     want("engine alive", post["phase"] == "running", obs["alive"])
     want("component final state", post["final"], obs["final"])
-    want("engine shut down", post["final"] != "none", obs["shutdown"])
+    # finish() leaves the engine of a migratable component alone (the next stage may adopt it)
+    want("engine shut down", post["final"] != "none" and not cfg.get("migratable"), obs["shutdown"])
     if ev["act"] == "Exit":
         want("engine exit reason", post["last"], obs["exitReason"])
     return bad
@@ -306,6 +334,8 @@ def do_step(inst, ev):
         return inst.direct(ev["answer"])
     if ev["act"] == "LateRestart":
         return inst.late_restart(ev["reason"])
+    if ev["act"] == "Finish":
+        return inst.finish(ev["reason"])
     raise MachineryError("unknown action %r" % (ev,))
 
 
@@ -511,6 +541,8 @@ def brief(evs):
             out.append("late:" + ev["reason"])
         elif ev["act"] in ("Launch", "Kill"):
             out.append(ev["act"].lower())
+        elif ev["act"] == "Finish":
+            out.append("finish:" + ev["reason"])
         else:
             out.append(("pm" if ev["act"] == "PostMortem" else "restart") + ("" if ev["answer"] == "na" else ":" + ev["answer"]))
     return "[" + " ".join(out) + "]"
@@ -521,7 +553,9 @@ def vacuity_of_edges(configs, edges):
     byid = {c["id"]: c for c in configs}
     need = {"resub cap reached": False, "default budget 3 exhausted": False, "restart beyond 3 (unlimited)": False,
             "reset on Success": False, "refused hook moves the counter": False, "repeating second restart refused": False,
-            "unstable system calls the engine": False, "exception escapes the hook": False}
+            "unstable system calls the engine": False, "exception escapes the hook": False,
+            "finish() before the post-mortem of a restartable exit, migratable": False,
+            "post-mortem of a component that was finished meanwhile": False}
     for cid, es in edges.items():
         c = byid[cid]
         for e in es:
@@ -542,6 +576,10 @@ def vacuity_of_edges(configs, edges):
             if not c["stable"] and ev["act"] == "PostMortem" and ev["reason"] not in c["restartOn"] and ev["hook"] is False \
                     and ev["reason"] == "KnownIssue" and ev["code"] == "RestartCouldNotInitiate":
                 need["unstable system calls the engine"] = True
+            if ev["act"] == "Finish" and c["migratable"] and pre["last"] in c["restartOn"] and c["kind"] == "normal":
+                need["finish() before the post-mortem of a restartable exit, migratable"] = True
+            if ev["act"] == "PostMortem" and pre["phase"] == "cancelled" and pre["last"] in c["restartOn"]:
+                need["post-mortem of a component that was finished meanwhile"] = True
             if ev["code"] == "raised" or (ev["answer"] in ("noRestartFn", "importRaises") and post["restarts"] > pre["restarts"]):
                 need["exception escapes the hook"] = True
     missing = [k for k, v in need.items() if not v]
@@ -571,25 +609,32 @@ def record_walk(W, world, cfg, rng, maxlen):
     inst = W.Instance(world, cfg["id"])
     mode = rng.choice(WALK_MODES)
     good = ("possible", "true", "hookNotAvailable", "junkStr", "none", "raisesIOError")
-    steps, refused, late = [], 0, False
+    steps, refused, late, pending, is_final = [], 0, False, False, False
+    p_finish = rng.choice((0.0, 0.1, 0.4)) if cfg["entry"] == "controller" else 0.0
     while len(steps) < maxlen:
         runs_before = inst.runs
         if inst.engine.isAlive():
             reason = pick_reason(rng, mode, cfg, len(steps))
             inst.exit(reason)
             obs = inst.observe()
+            pending = True            # the POSTMORTEM notification of this exit is on its way to the controller
             st = {"act": "Exit", "reason": reason, "answer": "na"}
-        elif inst.engine.isShutdown:
-            if late:
+        elif is_final and not pending:
+            if late or cfg.get("migratable"):
                 break
             late = True
             reason = inst.engine.exitReason()
             obs = inst.late_restart(reason)
             st = {"act": "LateRestart", "reason": reason, "answer": "na"}
+        elif not is_final and pending and rng.random() < p_finish:
+            f = rng.choice(("shutdown", "failed"))
+            obs = inst.finish(f)      # somebody else finishes the component before the notification is handled
+            st = {"act": "Finish", "reason": f, "answer": "na"}
         else:
             answer = rng.choice(good) if rng.random() < 0.6 else rng.choice(ANSWERS)
             if cfg["entry"] == "controller":
                 obs = inst.post_mortem(answer)
+                pending = False
                 st = {"act": "PostMortem", "reason": "na", "answer": answer}
             else:
                 obs = inst.direct(answer)
@@ -599,6 +644,7 @@ def record_walk(W, world, cfg, rng, maxlen):
                     steps.append(dict(st, **project(obs, runs_before)))
                     break
         steps.append(dict(st, **project(obs, runs_before)))
+        is_final = obs["final"] != "none"
     return mode, steps
 
 
@@ -630,7 +676,7 @@ def validate_traces(chk, tier, traces, name=None):
         for c, st in traces:
             f.write(json.dumps({"c": c, "steps": [{k: s[k] for k in keep} for s in st]}) + "\n")
     cfgp = write_cfg(name, "CONSTANTS\n  Configs <- MCConfigs\n  MaxRuns = 0\n  MaxCount = 0\n  Deviations <- MCAllDeviations\n"
-                           "  Emit = FALSE\n  Window = FALSE\n  TraceFile = \"%s\"\nINIT TraceInit\nNEXT TraceNext\nINVARIANT TraceEmit\n"
+                           "  Emit = FALSE\n  Window = FALSE\n  FinishInHook = FALSE\n  TraceFile = \"%s\"\nINIT TraceInit\nNEXT TraceNext\nINVARIANT TraceEmit\n"
                            "CHECK_DEADLOCK FALSE\n" % ndjson)
     r = run_tlc(name, cfgp, workers=1, timeout=1500)
     if not r["ok"]:
@@ -664,6 +710,8 @@ def walk_step_class(cfg, steps, i):
         return pre + ":exit-bookkeeping"
     if st["act"] == "LateRestart":
         return pre + ":restart-after-final-state"
+    if st["act"] == "Finish" or any(s["act"] == "Finish" for s in steps[:i]):
+        return pre + ":finish-between-exit-and-post-mortem" + (":migratable" if cfg.get("migratable") else "")
     last = next((s["reason"] for s in reversed(steps[:i]) if s["act"] == "Exit"), "none")
     if last == "SubmissionFailed":
         return pre + ":resubmission"
@@ -681,6 +729,8 @@ def brief_steps(steps):
             out.append("exit:" + s["reason"])
         elif s["act"] == "LateRestart":
             out.append("late")
+        elif s["act"] == "Finish":
+            out.append("finish:" + s["reason"])
         else:
             out.append("%s:%s>%s" % ("pm" if s["act"] == "PostMortem" else "restart", s["answer"],
                                      s["code"].replace("Restart", "")))
@@ -781,7 +831,7 @@ def tlc_window(chk, tier, configs):
             raise MachineryError("action %s of Restart.tla never taken in the window model: %s" % (a, r["coverage"]))
     chk.add_tlc(r)
     body = ("CONSTANTS\n  Configs <- MCConfigs\n  MaxRuns = 40\n  MaxCount = %d\n  Deviations <- MCNoDeviation\n  Emit = TRUE\n"
-            "  Window = TRUE\nSPECIFICATION Spec\nCONSTRAINT BoundedWindow\nVIEW EdgeView\nACTION_CONSTRAINT EmitEdge\n"
+            "  Window = TRUE\n  FinishInHook = FALSE\nSPECIFICATION Spec\nCONSTRAINT BoundedWindow\nVIEW EdgeView\nACTION_CONSTRAINT EmitEdge\n"
             "CHECK_DEADLOCK FALSE\n" % (2 if tier == "quick" else 3))
     r = run_tlc(mod, write_cfg("Restart_edgeswin_%s" % tier, body), workers=1, timeout=900)
     if not r["ok"]:
